@@ -94,14 +94,22 @@ def relative(pkg: Pkg, frm: str, target: str) -> str | None:
 
 
 def gen_package(rng: random.Random, name: str = "pk", *, hostile: bool = False, with_docs: bool = False,
-                dup_prob: float = 0.25, ns_prob: float = 0.10, shape_prob: float = 0.10) -> Pkg:  # noqa: C901, PLR0912, PLR0915
+                dup_prob: float = 0.25, ns_prob: float = 0.10, shape_prob: float = 0.10,
+                nmods: tuple[int, int] = (3, 8), foreign: list[Pkg] | tuple = (), foreign_prob: float = 0.35) -> Pkg:  # noqa: C901, PLR0912, PLR0915
     """``ns_prob``: share of freshly bound names (definitions, import aliases) spelled like a structural name of the package
     (own module, ancestors, other modules); ``shape_prob``: share drawn from the underscore shapes (dunder, class-private
-    style, sunder, ...)."""
-    pkg = layout(rng, name)
+    style, sunder, ...); ``foreign``: already generated *other* top-level packages whose modules this one may import
+    from (absolute spellings only; ``foreign_prob`` = share of import statements reaching over there), which keeps the
+    import graph acyclic across packages as well."""
+    pkg = layout(rng, name, nmods)
+    foreign_mods: list[str] = []
+    for other in foreign:
+        foreign_mods += other.order
+        pkg.defs.update(other.defs)
+        pkg.all.update(other.all)
     pool = ["alpha", "beta", "gamma", "delta", "omega", "_hidden", "_p2", "Kls", "Other", "fn", "helper"]
     for idx, mod in enumerate(pkg.order):
-        earlier = pkg.order[:idx]
+        earlier = foreign_mods + pkg.order[:idx]
         # children of this package may always be imported by its init; other earlier modules too
         lines: list[str] = []
         bound: dict[str, str] = {}
@@ -148,6 +156,10 @@ def gen_package(rng: random.Random, name: str = "pk", *, hostile: bool = False, 
                 bound[nm] = kind
                 continue
             src = rng.choice(earlier)
+            if foreign_mods and idx and rng.random() < foreign_prob:
+                src = rng.choice(foreign_mods)
+            elif foreign_mods and idx:
+                src = rng.choice(pkg.order[:idx])
             src_names = [n for n in pkg.defs[src] if n != "__all__"]
             spelled = src
             rel = relative(pkg, mod, src)
@@ -202,6 +214,19 @@ def gen_package(rng: random.Random, name: str = "pk", *, hostile: bool = False, 
                     exposed = [n for n in pkg.defs[src] if not n.startswith("_")]
                 if set(exposed) & children:
                     continue  # would shadow a sub-module of this package
+                if exp is None and children & {m.rsplit(".", 1)[1] for m in [*foreign_mods, *pkg.order] if "." in m and m.rsplit(".", 1)[0] == src}:
+                    # a package without __all__ also hands over its (implicitly bound) sub-modules: same shadowing
+                    continue
+                local = [n for n in exposed if n not in HOOKS]
+                if local and rng.random() < 0.3:
+                    # a local definition right above the wildcard that rebinds its name (the later statement wins)
+                    nm = rng.choice(local)
+                    if rng.random() < 0.5:
+                        lines.append(f"def {nm}(own_param):\n    return '{mod}.{nm}'")
+                        bound[nm] = FUNC
+                    else:
+                        lines.append(f"{nm} = '{mod}.{nm}'")
+                        bound[nm] = VALUE
                 lines.append(f"from {spelled} import *")
                 for n in exposed:
                     bound[n] = pkg.defs[src][n]
